@@ -64,6 +64,12 @@ mod cpp;
 pub mod error;
 pub mod generate;
 
+// Verification hook (H2): the preprocessor, drivable on its own.
+#[cfg(cc6502_verif)]
+pub mod verif {
+    pub use crate::cpp::{process, process_str, Context};
+}
+
 extern crate pest;
 #[macro_use]
 extern crate pest_derive;
